@@ -514,6 +514,12 @@ def rule_R6(ctx, repo, eng, imm, mut, rid='C09.R6'):
                 bad = True
                 r.violated(key, common.site_of(f, n), '%s returns its argument itself under `%s`: only an object whose class is exactly %s may be shared (a mutable subclass instance would be aliased)'
                            % (key, norm(g.test) if isinstance(g, ast.If) else 'no guard', c.name))
+        # ... and every path hands an object back: a path that falls off the end answers None, which the constructors
+        # of the enclosing classes then store as an element
+        mf_ = flow.run_must(f.node)
+        if any(k_ == 'fallthrough' for k_, n_, f_ in mf_.exits):
+            bad = True
+            r.violated(key + ':returns', f.site, '%s can finish without returning: a %s source yields None, and the immutable copy that was asked for holds None in its place' % (key, 'mutable' if idrets else 'given'), sure=True)
         if not bad:
             r.ok(key, f.site, 'argument returned only under `%s.__class__ is %s`; otherwise rebuilt through the constructor' % (arg, c.name))
     for c, f in from_methods(repo, mut):
@@ -595,6 +601,24 @@ def deep_arg(repo, f, src, arg, kinds, mut):
 # ------------------------------------------------------------------------------------------------ R7
 def rule_R7(ctx, repo, imm, mut):
     r = ctx.rule('C09.R7', 'constructor defaults of data classes are immutable values (no shared mutable default)', engine='OWN', floor=20)
+    # a None default that stands for "a fresh empty list" is replaced before it is stored
+    for c_ in repo.classes.values():
+        if c_.module.name != 'bitcoin.core' or '__init__' not in c_.methods:
+            continue
+        ini = c_.methods['__init__']
+        dflt = ini.defaults()
+        for p_, d_ in dflt.items():
+            if not (isinstance(d_, ast.Constant) and d_.value is None):
+                continue
+            tests = [n for n in ini.node.body if isinstance(n, ast.If) and norm(n.test) == '%s is None' % p_]
+            stored = any(isinstance(n, ast.Assign) and isinstance(n.targets[0], ast.Attribute) and norm(n.value) == p_ for n in walk_no_nested(ini.node))
+            if tests and stored:
+                t_ = tests[0]
+                if any(isinstance(x, ast.Assign) and norm(x.targets[0]) == p_ for x in t_.body):
+                    r.ok('none-default:%s.%s' % (c_.name, p_), common.site_of(ini, t_), 'replaced before it is stored')
+                elif all(isinstance(x, ast.Pass) for x in t_.body):
+                    r.violated('none-default:%s.%s' % (c_.name, p_), common.site_of(ini, t_), '%s.__init__ tests `%s is None` and then stores None itself in the field: an object built without the argument has %s = None '
+                               '(append / iteration / serialisation fail)' % (c_.name, p_, p_), sure=True)
     imm_names = {c.name for c in imm}
     for c in imm + mut:
         init = c.methods.get('__init__')
